@@ -76,7 +76,8 @@ def run_init_and_accessors(ctx, mods):
                     n_cls += 1
                     try:
                         st = AttrState(prog, ci)
-                        must = st.summary(init).must
+                        isum = st.summary(init)
+                        must = isum.must
                         # attributes some method reads before writing
                         read_somewhere = set()
                         for c2 in prog.mro(ci):
@@ -92,12 +93,40 @@ def run_init_and_accessors(ctx, mods):
                         for a in want:
                             if a in read_somewhere:
                                 n_attr += 1
-                                if a not in must and prog.class_attr(ci, a) is None:
+                                if a not in must and prog.class_attr(ci, a) is None and "*" in isum.kills:
+                                    o.undecided(f"`{ci.name}.__init__` binds attributes by computed name (setattr): whether `self.{a}` is among them is not decided", init)
+                                elif a not in must and prog.class_attr(ci, a) is None:
                                     bad = True
                                     o.violated(init, init.node, f"`{ci.name}.__init__` no longer assigns `self.{a}` on every path, but methods of the class read it: "
                                                                 f"an object built by the constructor fails (AttributeError) or works on stale state when they run")
                     except Exception as e:
                         o.undecided(f"constructor analysis of {ci.name} failed: {type(e).__name__}: {e}", init)
+                # derived state is built AFTER the configuration it is computed from: a `self.m()` in the constructor that reads
+                # `self.a` (before writing it) must not be followed, on some path, by the constructor's own assignment of `self.a`
+                # (the object would then report the new setting while holding what was computed from the old one / the default)
+                own0 = ci.methods.get("__init__")
+                if own0 is not None:
+                    try:
+                        import networkx as _nx
+                        from gcmstatic.cfg import CFG as _CFG
+                        st0 = AttrState(prog, ci)
+                        cfg0 = _CFG(own0.node)
+                        evs0 = {n_: st0.events(own0, cfg0.stmt[n_]) for n_ in cfg0.nodes()}
+                        calls0 = [(n_, e_[1], e_[2]) for n_, ev_ in evs0.items() for e_ in ev_ if e_[0] == "call" and e_[1].name != "__init__"]
+                        asg0 = [(n_, e_[1], e_[2]) for n_, ev_ in evs0.items() for e_ in ev_ if e_[0] == "assign"]
+                        for cn_, m_, cnode_ in calls0:
+                            needs = set(st0.summary(m_).exposed)
+                            for an_, a_, anode_ in asg0:
+                                if a_ in needs and an_ != cn_ and _nx.has_path(cfg0.g, cn_, an_):
+                                    again = any(m2_ is m_ and n2_ != cn_ and _nx.has_path(cfg0.g, an_, n2_) for n2_, m2_, _ in calls0)
+                                    if again:
+                                        continue
+                                    bad = True
+                                    o.violated(own0, cfg0.stmt[cn_], f"`{ci.name}.__init__` runs `self.{m_.name}()` (which reads `self.{a_}`) BEFORE it stores `self.{a_}` "
+                                                                    f"(line {getattr(anode_, 'lineno', '?')}): what {m_.name} builds comes from the old value / the class default, "
+                                                                    "while the object reports the caller's setting", shape_free=True)
+                    except Exception as e:
+                        o.undecided(f"constructor order analysis of {ci.name} failed: {type(e).__name__}: {e}", own0)
                 # configuration keys: self.<attr> <- params[KEY] as on the pinned tree
                 own_init = ci.methods.get("__init__")
                 wantp = _init_params().get(ci.name)
@@ -112,6 +141,29 @@ def run_init_and_accessors(ctx, mods):
                         n_attr += 1
                         if not stores:
                             continue     # reported (if it matters) by the definite-assignment rule above
+                        # positional configuration (sizes, names, index lists pair up by position with other parameters and with the
+                        # columns of the joint degrees): the value is stored AS GIVEN, not sorted / de-duplicated / reversed
+                        for n_ in hits:
+                            v_ = isc.resolve(n_.value)
+                            wraps = [x for x in ast.walk(v_) if isinstance(x, ast.Call) and txt(x.func) in ("sorted", "set", "frozenset", "reversed", "dict.fromkeys")
+                                     and any(isinstance(y, ast.Subscript) and txt(y.value) == pp and txt(y.slice) == spec["key"] for y in ast.walk(x))]
+                            # the same wrapper applied to every ELEMENT: [sorted(x) for x in params[KEY]]
+                            if not wraps and isinstance(v_, (ast.ListComp, ast.GeneratorExp)) and len(v_.generators) == 1 and isinstance(v_.generators[0].target, ast.Name) \
+                                    and isinstance(v_.generators[0].iter, ast.Subscript) and txt(v_.generators[0].iter.value) == pp and txt(v_.generators[0].iter.slice) == spec["key"]:
+                                tv_ = v_.generators[0].target.id
+                                wraps = [x for x in ast.walk(v_.elt) if isinstance(x, ast.Call) and txt(x.func) in ("sorted", "set", "frozenset", "reversed") and x.args and txt(x.args[0]) == tv_]
+                            # the caller's list used only as a FILTER over another container: [x for x in other if x in params[KEY]] takes
+                            # its order (and multiplicity) from `other`
+                            if not wraps and isinstance(v_, (ast.ListComp, ast.GeneratorExp)) and len(v_.generators) == 1:
+                                g_ = v_.generators[0]
+                                is_key = lambda y: isinstance(y, ast.Subscript) and txt(y.value) == pp and txt(y.slice) == spec["key"]
+                                if not any(is_key(y) for y in ast.walk(g_.iter)) and any(
+                                        isinstance(c_, ast.Compare) and len(c_.ops) == 1 and isinstance(c_.ops[0], ast.In) and is_key(c_.comparators[0]) for c_ in g_.ifs):
+                                    wraps = [v_]
+                            if wraps:
+                                bad = True
+                                o.violated(own_init, n_, f"`self.{a}` stores `{txt(wraps[0])[:60]}`, not {pp}[{spec['key']}] as the caller gave it: the entries pair up BY POSITION with "
+                                                         "the other parameters (and with the columns of every joint degree), so a re-ordered / de-duplicated copy silently re-pairs them", shape_free=True)
                         if not hits:
                             # the value may come through .get(KEY, default) or a helper we cannot see: only accuse when the key is not mentioned at all
                             mentioned = any(spec["key"] in txt(x) for x in ast.walk(own_init.node) if isinstance(x, (ast.Subscript, ast.Call, ast.Compare)))
@@ -157,8 +209,115 @@ def run_init_and_accessors(ctx, mods):
                     elif not any(val in astx.names_in(n.value) for n in stores if n.value is not None):
                         bad = True
                         o.violated(sm, stores[0], f"the setter of `{ci.name}.{name}` stores `{txt(stores[0].value)}`, not the value it was given (`{val}`)")
+                    else:
+                        # WHAT is stored: the value itself (or a plain copy), not a lazy / re-ordered / de-duplicated / re-labelled rendering of it
+                        ssc = Scope(sm.node)
+                        for n in stores:
+                            if n.value is None:
+                                continue
+                            v_ = ssc.resolve(n.value)
+                            inner = lambda x: any(isinstance(y, ast.Name) and y.id == val for y in ast.walk(x))
+                            lazy = [x for x in ast.walk(v_) if (isinstance(x, ast.Call) and txt(x.func) in ("map", "filter", "zip", "iter", "reversed", "enumerate") and inner(x)) or
+                                    (isinstance(x, ast.GeneratorExp) and inner(x))]
+                            # a lazy object consumed on the spot (list(map(..)), sorted(x for ..)) is not what is stored
+                            lazy = [x for x in lazy if x is v_]
+                            reorder = [x for x in ast.walk(v_) if isinstance(x, ast.Call) and inner(x) and
+                                       (txt(x.func) in ("sorted", "set", "frozenset", "dict.fromkeys") or
+                                        (prog.external(sm.module, x.func) or "") in ("networkx.convert_node_labels_to_integers", "networkx.relabel_nodes",
+                                                                                      "networkx.relabel.convert_node_labels_to_integers", "networkx.relabel.relabel_nodes",
+                                                                                      "random.sample", "numpy.unique"))]
+                            keep_old = isinstance(v_, ast.BoolOp) and isinstance(v_.op, ast.Or) and astx.self_attr(v_.values[0]) == fld
+                            if lazy:
+                                bad = True
+                                o.violated(sm, n, f"the setter of `{ci.name}.{name}` stores the one-shot iterator `{txt(lazy[0])[:60]}`: the getter hands the same object to every reader, "
+                                                  "so the second reader (a second conversion, an inspection followed by a conversion) sees it empty", shape_free=True)
+                            elif reorder:
+                                bad = True
+                                o.violated(sm, n, f"the setter of `{ci.name}.{name}` stores `{txt(reorder[0])[:70]}`, a re-ordered / de-duplicated / re-labelled rendering of the value it was given: "
+                                                  "entries no longer line up with the parallel fields (and vertex ids no longer with the caller's)", shape_free=True)
+                            elif keep_old:
+                                bad = True
+                                o.violated(sm, n, f"the setter of `{ci.name}.{name}` keeps the old `self.{fld}` whenever one is set (`{txt(v_)[:60]}`): assignments through the property are lost", shape_free=True)
         if not bad:
             o.holds(None, None, f"{n_cls} constructors / {n_attr} configured attributes that methods read, {n_acc} property getter-setter pairs", construct="constructor and accessor scan")
+
+
+def run_exports(ctx, mods0):
+    """Cnn.I (exports): the package's `__init__` modules hand out the property's functions / classes under their own names and
+    unwrapped.  `from .poisson import exponential as poisson`, `Q as QQ`, or `bond_percolate = lru_cache(..)(bond_percolate)` change
+    what `gcmpy.<name>` is without touching the implementation."""
+    prog = ctx.prog
+    own = {}
+    for m in mods0:
+        for nm in list(m.functions) + list(m.classes):
+            own[nm] = m
+    inits = [m for m in prog.modules.values() if m.relpath.endswith("__init__.py")]
+    if not inits or not own:
+        return
+    with ctx.obligation(f"{ctx.prop}.I", "package exports bind each public name of the anchor modules to the object of that name, unwrapped") as o:
+        n = 0
+        for mi in inits:
+            for st in mi.tree.body:
+                if isinstance(st, ast.ImportFrom):
+                    for al in st.names:
+                        src_mod = st.module or ""
+                        if al.asname and al.asname != al.name and (al.asname in own or al.name in own):
+                            n += 1
+                            o.violated(None, st, f"{mi.relpath}: `{al.name} as {al.asname}` exports `{al.name}` of {src_mod} under the name `{al.asname}`"
+                                                 + (f", which is the name of another object of {own[al.asname].name}" if al.asname in own else "")
+                                                 + ": callers of the package-level name get a different function", shape_free=True)
+                        elif al.name in own and not al.asname:
+                            # the same name must come from the module that defines it
+                            defmod = own[al.name].name
+                            if src_mod and not (src_mod == defmod or defmod.endswith("." + src_mod.lstrip(".")) or src_mod.endswith(defmod.split(".")[-1])):
+                                n += 1
+                                o.undecided(f"{mi.relpath}: `{al.name}` is imported from {src_mod}, not from {defmod}", None, st)
+                            else:
+                                n += 1
+                                o.holds(None, st, f"{mi.relpath}: `{al.name}` exported under its own name from {src_mod}")
+                elif isinstance(st, (ast.Assign, ast.AnnAssign)):
+                    tg = st.targets[0] if isinstance(st, ast.Assign) else st.target
+                    if isinstance(tg, ast.Name) and tg.id in own and getattr(st, "value", None) is not None:
+                        n += 1
+                        v = st.value
+                        if isinstance(v, ast.Name) and v.id == tg.id:
+                            continue
+                        wrapped = any(isinstance(x, ast.Name) and x.id == tg.id for x in ast.walk(v))
+                        caching = any(isinstance(x, (ast.Name, ast.Attribute)) and txt(x).split(".")[-1] in ("lru_cache", "cache", "memoize", "cached") for x in ast.walk(v))
+                        if wrapped and caching:
+                            o.violated(None, st, f"{mi.relpath}: the exported `{tg.id}` is wrapped in a memoising decorator (`{txt(v)[:60]}`): calls with equal arguments return the first "
+                                                 "result for ever - random draws are replayed and later changes of a mutable argument are ignored", shape_free=True)
+                        else:
+                            o.undecided(f"{mi.relpath}: the exported name `{tg.id}` is re-bound to `{txt(v)[:60]}`", None, st)
+        if not n:
+            o.holds(None, None, "the package __init__ modules do not mention the anchor modules' names", construct="scan of __init__.py files")
+
+
+# properties whose statement is DISTRIBUTIONAL ("independently with probability phi", "uniformly random"): the library must not
+# reseed / restore the global generator anywhere, or every later draw in the process repeats a fixed sequence (C03 carries the same
+# scan as C03.3).  Properties of the form "for every sequence of draws X holds" are not affected by a reseed and do not carry it.
+RANDOM_PROPS = ("C18",)
+
+
+def run_reseed(ctx):
+    prog = ctx.prog
+    with ctx.obligation(f"{ctx.prop}.R", "the package never reseeds the global RNG") as o:
+        seeds = []
+        for fn in prog.all_functions():
+            for n in astx.walk_fn(fn.node):
+                if isinstance(n, ast.Call):
+                    e = prog.external(fn.module, n.func)
+                    if e in ("random.seed", "random.setstate", "numpy.random.seed", "numpy.random.set_state"):
+                        seeds.append((fn, n, e))
+        for mi in prog.modules.values():
+            for st in mi.tree.body:
+                if isinstance(st, ast.Expr) and isinstance(st.value, ast.Call) and prog.external(mi, st.value.func) in ("random.seed", "random.setstate", "numpy.random.seed"):
+                    seeds.append((None, st, "module-level " + txt(st.value.func)))
+        for fn, n, e in seeds:
+            o.violated(fn, n, f"{e} inside library code fixes the state of the shared generator: every draw that follows in the process repeats a fixed sequence, "
+                              "so the random choices this property quantifies over are no longer independent / uniform", shape_free=True)
+        if not seeds:
+            o.holds(None, None, f"no random.seed / setstate call in {len(prog.functions)} functions", construct="repo-wide scan")
 
 
 def run(ctx):
@@ -166,9 +325,16 @@ def run(ctx):
     files = set(property_files(ctx.prop))
     if not files:
         return
+    if ctx.prop in RANDOM_PROPS:
+        run_reseed(ctx)
     mods0 = [m for m in prog.modules.values() if m.relpath in files]
     if mods0:
         run_init_and_accessors(ctx, mods0)
+        try:
+            run_exports(ctx, mods0)
+        except Exception as e_:
+            with ctx.obligation(f"{ctx.prop}.I", "package exports") as o_:
+                o_.undecided(f"export scan failed: {type(e_).__name__}: {e_}")
     with ctx.obligation(f"{ctx.prop}.S", "no state leaks between calls or objects in the anchor files (shared class state, incomplete memo keys, memoised mutable arguments)") as o:
         n_classes = n_funcs = n_memo = 0
         found = False
@@ -283,6 +449,44 @@ def run(ctx):
                             found = True
                             o.violated(f10, st10, f"S10: `{txt(st10)}` is a SHALLOW copy (it shares the adjacency dictionaries of `{txt(v10.args[0])}`), and `{txt(muts[0])[:50]}` then edits it: "
                                                   "the caller's graph is modified as well", shape_free=True)
+            # ---- S13: a graph re-built from its own EDGES (`G.edge_subgraph(G.edges())`, `nx.Graph(G.edges(data=True))`, `nx.from_edgelist(G.edges)`)
+            # has lost every vertex without an edge and every vertex attribute: when that rendering is what the object keeps / hands on,
+            # isolated vertices silently drop out of counts, fractions and joint degrees
+            for f13 in [f_ for f_ in prog.all_functions() if f_.module is mi]:
+                par13 = None
+                for c13 in [n for n in astx.walk_fn(f13.node) if isinstance(n, ast.Call)]:
+                    src13 = None
+                    if isinstance(c13.func, ast.Attribute) and c13.func.attr == "edge_subgraph" and len(c13.args) == 1:
+                        g_ = txt(c13.func.value)
+                        a_ = c13.args[0]
+                        if isinstance(a_, ast.Call) and txt(a_.func) in ("list", "tuple", "set") and len(a_.args) == 1:
+                            a_ = a_.args[0]
+                        if txt(a_) in (f"{g_}.edges", f"{g_}.edges()"):
+                            src13 = g_
+                    elif (prog.external(mi, c13.func) or "") in ("networkx.Graph", "networkx.from_edgelist", "networkx.convert.from_edgelist") and len(c13.args) == 1:
+                        a_ = c13.args[0]
+                        if isinstance(a_, ast.Call) and txt(a_.func) in ("list", "tuple") and len(a_.args) == 1:
+                            a_ = a_.args[0]
+                        if isinstance(a_, ast.Call) and isinstance(a_.func, ast.Attribute) and a_.func.attr == "edges":
+                            a_ = a_.func
+                        if isinstance(a_, ast.Attribute) and a_.attr == "edges" and isinstance(a_.value, (ast.Name, ast.Attribute)):
+                            src13 = txt(a_.value)
+                    if src13 is None:
+                        continue
+                    par13 = par13 or astx.Parents(f13.node)
+                    st13 = par13.stmt_of(c13)
+                    up13 = par13.parent(c13)
+                    kept = (isinstance(st13, (ast.Assign, ast.AnnAssign)) and getattr(st13, "value", None) is c13 and
+                            any(astx.self_attr(t_) is not None for t_ in (st13.targets if isinstance(st13, ast.Assign) else [st13.target]))) \
+                        or (isinstance(up13, ast.Call) and c13 in up13.args and isinstance(st13, (ast.Assign, ast.AnnAssign)) and
+                            any(astx.self_attr(t_) is not None for t_ in (st13.targets if isinstance(st13, ast.Assign) else [st13.target]))) \
+                        or (isinstance(st13, ast.Return) and st13.value is c13)
+                    if kept:
+                        found = True
+                        o.violated(f13, st13, f"S13: `{txt(c13)[:70]}` re-builds `{src13}` from its EDGES and the object keeps / hands on that rendering: every vertex without an edge "
+                                              "(and every vertex attribute, for a plain re-build) is gone, so isolated vertices drop out of sizes, fractions and joint degrees", shape_free=True)
+                    else:
+                        o.undecided(f"`{txt(c13)[:60]}` re-builds a graph from its edges (isolated vertices are lost); how the result is used is not decided", f13, st13 or c13)
             # ---- S11: `dict.fromkeys(keys, [])` gives every key the SAME list / dict / set object; S12: an augmented assignment to the loop
             # variable of `for k, v in d.items(): v *= s` re-binds a local (numbers are immutable) and leaves the container as it was
             for f11 in [f_ for f_ in prog.all_functions() if f_.module is mi]:
